@@ -9,6 +9,9 @@
    order to a node that stores only genesis [g]; it returns the final state and
    what ProcessBlock returned for every delivery.
 
+   The predicates of the statements (hash_consistent, connected, index lookup,
+   Inv) are defined in C12/Spec.v.
+
    Parameters, universally quantified in every theorem:
      valid        everything saveBlock checks once the parent header is found
                   (validation, casper, store) - any predicate of the block;
@@ -27,7 +30,7 @@
    The expiry worker (a timer) is not part of the model: no expiry tick inside
    the history. *)
 From Coq Require Import List NArith Permutation.
-From C12 Require Import Model Proofs.
+From C12 Require Import Model Spec Proofs.
 Import ListNotations.
 
 (* Block processing never crashes and always returns: the model has no panicking
